@@ -284,6 +284,10 @@ func (e *SendSideBWE) Close() error {
 	e.closeLock.Lock()
 	defer e.closeLock.Unlock()
 
+	if e.isClosed() {
+		return nil
+	}
+
 	if err := e.delayController.Close(); err != nil {
 		return err
 	}
